@@ -8,7 +8,7 @@ namespace LoomVerif
 
 /-- `thread::State` (the `Location` payload of `Blocked` is dropped) -/
 inductive TState
-  | runnable (unparked : Bool) | blocked | yield | terminated
+  | runnable | blocked | yield | terminated
 deriving DecidableEq, Repr, Inhabited
 
 /-- `object::Action` with the per-kind actions flattened -/
@@ -41,7 +41,12 @@ end Access
 
 /-- `thread::Thread` (tracing span, `critical` flag and thread-local map are kept elsewhere) -/
 structure Thread where
-  state : TState := .runnable false
+  state : TState := .runnable
+  /-- an `unpark` that no `park` has consumed yet (kept apart from `state`: blocking on something else in
+  between does not lose it — repair of findings F5/F18) -/
+  token : Bool := false
+  /-- blocked in `park` (as opposed to blocked on a lock, a join, …): only then does `unpark` wake it -/
+  parked : Bool := false
   operation : Option Operation := none
   causality : VV := VV.zero
   released : VV := VV.zero
@@ -51,11 +56,13 @@ structure Thread where
 deriving DecidableEq, Repr, Inhabited
 
 namespace Thread
-def isRunnable (t : Thread) : Bool := match t.state with | .runnable _ => true | _ => false
+def isRunnable (t : Thread) : Bool := t.state == .runnable
 def isBlocked (t : Thread) : Bool := t.state == .blocked
 def isYield (t : Thread) : Bool := t.state == .yield
 def isTerminated (t : Thread) : Bool := t.state == .terminated
-def setRunnable (t : Thread) : Thread := { t with state := .runnable false }
+def setRunnable (t : Thread) : Thread := { t with state := .runnable, parked := false }
+/-- `Thread::set_parked`: blocked in `park` -/
+def setParked (t : Thread) : Thread := { t with state := .blocked, parked := true }
 def setBlocked (t : Thread) : Thread := { t with state := .blocked }
 def setTerminated (t : Thread) : Thread := { t with state := .terminated }
 /-- what a release does to a thread whose pending `operation` names the released object: it is woken only if
@@ -64,10 +71,11 @@ def wake (t : Thread) : Thread := if t.isBlocked then t.setRunnable else t
 /-- `Thread::set_yield` (`id` is the thread's own index) -/
 def setYield (t : Thread) (id : Nat) : Thread :=
   { t with state := .yield, lastYield := some (t.causality.get id), yieldCount := t.yieldCount + 1 }
-/-- `Thread::set_unparked` -/
+/-- `Thread::set_unparked`: a thread blocked in `park` is woken; any other live thread (running, yielded,
+blocked on something else) stores the unpark for a future `park` -/
 def setUnparked (t : Thread) : Thread :=
-  if t.isBlocked || t.isYield then t.setRunnable
-  else if t.isRunnable then { t with state := .runnable true }
+  if t.parked then t.setRunnable
+  else if !t.isTerminated then { t with token := true }
   else t
 /-- `Thread::unpark` -/
 def unpark (t : Thread) (unparker : Thread) : Thread :=
